@@ -26,6 +26,11 @@ class S(mosaik_api_v3.Simulator):
     def step(self, t, inputs, max_advance):
         if self.die == "step":
             os._exit(1)
+        if self.die == "async_outstanding":
+            # dies while a request of its own to mosaik is being processed (the queried
+            # simulator takes 0.3 s to answer)
+            threading.Timer(0.1, lambda: os._exit(1)).start()
+            yield self.mosaik.get_data({"Dep.e": ["b"]})
         return t + 1
 
     def get_data(self, outputs):
